@@ -60,6 +60,21 @@ func c01ScenarioAt(i int) c01Scenario {
 	return c01FCScenarios[i-len(c01Scenarios)]
 }
 
+// limitName names the flow-control limit(s) a scenario makes the writer depend on.
+func (sc c01Scenario) limitName() string {
+	var l []string
+	if sc.ConnWindow > 0 {
+		l = append(l, "conn-window")
+	}
+	if sc.StreamWindow > 0 {
+		l = append(l, "stream-window")
+	}
+	if sc.MaxStreams > 0 {
+		l = append(l, "stream-count")
+	}
+	return strings.Join(l, "+")
+}
+
 // applyLimits writes the scenario's windows and stream limits into a Config.
 func (sc c01Scenario) applyLimits(c *quic.Config) {
 	if sc.StreamWindow > 0 {
@@ -493,7 +508,11 @@ func c01Run(t *testing.T, cfg c01Config) c01Outcome {
 			}
 			key := "transfer-incomplete:" + first
 			if sc.FC {
-				key = "fc-blocked:" + key
+				// which limit the writer depended on identifies the history class
+				if first == "" {
+					first = "stalled"
+				}
+				key = "fc-blocked:" + sc.limitName() + ":transfer-incomplete:" + first
 			}
 			res.fail(key, "with %d faults the transfers did not complete within 20 s of virtual time: complete=%v client-conn-error=%q server-conn-error=%q app errors=%v", len(cfg.Faults), complete, cerr, serr, appErrs)
 			cerrMu.Unlock()
